@@ -317,7 +317,7 @@ class ConstBitStream(Bits):
                 raise ValueError(
                     f"The '{dtype.name}' type must have a bit length that is a multiple of {dtype.bits_per_item}"
                     f" so cannot be read from the {bitlength} bits that are available.")
-            dtype = bitstring.dtypes.Dtype(fmt, items)
+            dtype = bitstring.dtypes.Dtype(dtype.name, items, dtype.scale)
         if dtype.bitlength is not None:
             val = dtype.read_fn(self, self._pos)
             self._pos += dtype.bitlength
